@@ -35,6 +35,8 @@ func (x *exec) computeFrame(entry *State, env *Env) *frameInfo {
 	for _, m := range con.Modifies {
 		text := m.Text
 		switch {
+		case strings.HasPrefix(text, "csprng("):
+			// provenance flags are ghost state: exempt from the frame check
 		case strings.HasSuffix(text, "[*]"):
 			e, err := ParseExpr(strings.TrimSuffix(text, "[*]"))
 			if err != nil {
@@ -122,7 +124,29 @@ func (x *exec) frameBody(fi *frameInfo, n, t0, t1, r, j string) string {
 	return Imp(And(excl...), Eq(Sel(t1, r), Sel(t0, r)))
 }
 
-func frameExempt(n string) bool { return n == "alive" || n == "gv" || strings.HasPrefix(n, "G!") }
+func frameExempt(n string) bool {
+	return n == "alive" || n == "gv" || strings.HasPrefix(n, "G!") || strings.HasPrefix(n, "ghost!")
+}
+
+const csprngArr = "ghost!csprng"
+
+// clearCsprng: a buffer that the program writes into element-wise (or copies into) is no longer
+// known to hold bytes from the secure random source.
+func (x *exec) clearCsprng(s *State, ref string) {
+	if _, used := s.heap[csprngArr]; !used && !(x.con != nil && x.con.Claims["csprng"]) {
+		return
+	}
+	h := x.h.get(s, csprngArr, "(Array Int Bool)")
+	x.h.set(s, csprngArr, "(Array Int Bool)", Sto(h, ref, "false"))
+}
+
+// refOf returns the object identity a provenance flag is attached to.
+func (x *exec) refOf(v *Val) string {
+	if isSliceType(v.Typ) {
+		return App("s-ref", x.term(v))
+	}
+	return x.term(v)
+}
 
 // frameCheck proves at function exit that only the declared locations changed.
 func (x *exec) frameCheck(fr *frame, fi *frameInfo, exit *State) {
